@@ -23,7 +23,9 @@ func runC13(c *Check, tier string) {
 	ruleRecordCacheIndependent(c, "R13e")
 	// "dependants are invalidated only if the outputs changed": the output digest of a target does not depend
 	// on the order in which its outputs were hashed
-	shareRule(c, "R13f", "digests that are combined into an output hash are sorted before they are joined or written to a hasher (same obligations as R09a, output package)", 1, "R09a", func(sub *Check) { ruleR09a(sub) }, func(k string) bool { return strings.Contains(k, "/output.") || strings.Contains(k, "output.Registry") || strings.Contains(k, "output/handlers") })
+	shareRule(c, "R13f", "digests that are combined into an output hash are sorted before they are joined or written to a hasher (same obligations as R09a, output package)", 1, "R09a", func(sub *Check) { ruleR09a(sub) }, func(k string) bool {
+		return strings.Contains(k, "/output.") || strings.Contains(k, "output.Registry") || strings.Contains(k, "output/handlers")
+	})
 }
 
 // ruleRecordCacheIndependent: nothing that is stored into the (hashed) output
